@@ -216,14 +216,20 @@ def extract_case(transcript_path, case_id):
 def last_case(transcript_path):
     """(case id, op lines with results stripped) of the LAST case of a saved transcript — the case during which a
     harness that prints each op before executing it died."""
-    cid, ops = None, []
+    cid, ops, nxt = None, [], None
     with open(transcript_path, errors="replace") as f:
         for line in f:
             line = line.rstrip("\n")
             if line.startswith("case "):
-                cid, ops = line.split()[1], []
-            elif cid is not None and line and not line.startswith("#"):
+                cid, ops, nxt = line.split()[1], [], None
+            elif line.startswith("# next: "):
+                nxt = line[len("# next: "):]          # announced, result not (yet) seen
+            elif cid is not None and line and not line.startswith("#") and not line.startswith("in "):
                 ops.append(line.split(" => ")[0])
+                if nxt is not None and ops[-1] == nxt:
+                    nxt = None
+    if cid is not None and nxt is not None:
+        ops.append(nxt)
     return cid, ops
 
 
